@@ -481,7 +481,7 @@ func parseGen(a args) {
 			for _, e := range out.events {
 				trace.put(e)
 			}
-			if out.api != nil && !out.bound {
+			if out.api != nil && !out.bound && out.api["skipped"] == nil {
 				trace.put(out.api)
 			}
 			for _, m := range out.mutations {
